@@ -557,6 +557,15 @@ func c11Exclusive(h *hctx, k int) {
 	var cells [nkeys]cell
 	var execs atomic.Int64
 	var g c11group
+	// option values built once and used by every goroutine at the same time, under different keys (an option is a
+	// value: using it for several calls shares nothing between them)
+	sharedOpts := []ExclusiveOption{
+		ExclusiveRateLimit(ctx, 50*time.Microsecond),
+		ExclusiveRateLimit(ctx, 150*time.Microsecond),
+		ExclusiveWrapper(func(w WorkFunc) WorkFunc {
+			return func(resolve func(interface{}, error)) { w(resolve) }
+		}),
+	}
 	for i := 0; i < 6; i++ {
 		r := rs[i]
 		g.run(func() {
@@ -570,7 +579,10 @@ func c11Exclusive(h *hctx, k int) {
 					c11read(val) // supplied by the caller goroutine before the call
 					return &c11val{a: cells[key].n, b: key, s: []int{1, 2}}, nil
 				}
-				switch r.Intn(8) {
+				switch r.Intn(10) {
+				case 8, 9:
+					o := <-e.CallWithOptions(ExclusiveKey(key), ExclusiveValue(work), sharedOpts[r.Intn(len(sharedOpts))])
+					c11read(o.Result)
 				case 0:
 					v, _ := e.Call(key, work)
 					c11read(v)
